@@ -31,7 +31,7 @@ CONSTANTS Files,       \* ids of the entries the receiving role may create
           MaxInject,   \* lines the environment may forge
           MaxNoise,    \* ordinary messages a peer sends without hearing from the other side
           WithBg,      \* switchToBackground (fork mode) may call resetTerm too
-          WithDead,    \* a role's connection may start to return write errors / swallow output
+          WithDead,    \* subset of {"dead", "mute"}: a role's connection may start to return write errors / swallow its output
           AsCoded,     \* TRUE: createdFiles also records existing files opened for overwriting
                        \*       (doCreateFile appends whenever OpenFile(O_CREATE) succeeds)
                        \* FALSE: what the property demands (only entries this transfer created)
@@ -45,13 +45,15 @@ CONSTANTS Files,       \* ids of the entries the receiving role may create
                        \*   "flood"    the peer never stops sending (cleanInput has no deadline)
 
 Roles == {"C", "V"}
+DrainBound == MaxNoise + MaxInject + 2   \* arrivals during one cleanInput: the peer's window, its own line(s), forged lines
 Peer(r) == IF r = "C" THEN "V" ELSE "C"
 STOPPED == 1
 STOPDEL == 2
 
 Msg(t, x, tb, fl) == [t |-> t, x |-> x, tb |-> tb, fl |-> fl]
+NoMsg == Msg("none", 0, 0, {})
 Txt(x, tb, fl) == [x |-> x, tb |-> tb, fl |-> fl]
-NoErr == [cls |-> "none", x |-> 0, tb |-> 0, trace |-> FALSE, remote |-> "no", fl |-> {}]
+NoErr == [cls |-> "none", x |-> 0, tb |-> 0, trace |-> FALSE, remote |-> "no", fl |-> {}, src |-> NoMsg]
 NoTxt == Txt(0, 0, {})
 
 VARIABLES
@@ -67,18 +69,16 @@ VARIABLES
     preex,     \* entries that existed before the transfer (overwrite mode)
     deleted,   \* [Roles -> SUBSET Files] what deleteCreatedFiles removed (history)
     wrote,     \* [Roles -> Seq(Msg)] fail / FAIL / EXIT lines r wrote (history, what the tap sees)
-    sent,      \* [Roles -> SUBSET Msg] every termination-relevant line ever put in flight to r (history)
     final,     \* the message the server hands to serverExit
     shown,     \* [Roles -> Seq(Txt)] V: final messages printed; C: the error returned to the API caller
     resets,    \* terminal reset sequences written by the server
     bgs,       \* "no" | "fired": the background path has called resetTerm
-    budget,    \* [Roles -> Nat] ordinary messages the peer of r may still send to r
     noise,     \* [Roles -> Nat] ordinary messages in flight to r
     turns,     \* [Roles -> Nat] loop turns of the current cleanInput of r
     ninj       \* lines forged so far
 
-vars == <<upload, pc, err, stopf, chan, dead, mute, made, tracked, preex, deleted, wrote, sent, final, shown,
-          resets, bgs, budget, noise, turns, ninj>>
+vars == <<upload, pc, err, stopf, chan, dead, mute, made, tracked, preex, deleted, wrote, final, shown,
+          resets, bgs, noise, turns, ninj>>
 
 Rcv == IF upload THEN "V" ELSE "C"
 
@@ -89,10 +89,10 @@ Init ==
     /\ dead = [r \in Roles |-> FALSE] /\ mute = [r \in Roles |-> FALSE]
     /\ made = [r \in Roles |-> {}] /\ tracked = [r \in Roles |-> {}] /\ preex \in SUBSET Files
     /\ deleted = [r \in Roles |-> {}]
-    /\ wrote = [r \in Roles |-> <<>>] /\ sent = [r \in Roles |-> {}]
+    /\ wrote = [r \in Roles |-> <<>>]
     /\ final = NoTxt /\ shown = [r \in Roles |-> <<>>]
     /\ resets = 0 /\ bgs = "no"
-    /\ budget = [r \in Roles |-> MaxNoise] /\ noise = [r \in Roles |-> 0] /\ turns = [r \in Roles |-> 0]
+    /\ noise = [r \in Roles |-> 0] /\ turns = [r \in Roles |-> 0]
     /\ ninj = 0
 
 -----------------------------------------------------------------------------
@@ -101,15 +101,14 @@ Init ==
 Write(r, m) ==
     /\ wrote' = IF dead[r] THEN wrote ELSE [wrote EXCEPT ![r] = Append(@, m)]
     /\ chan' = IF dead[r] \/ mute[r] THEN chan ELSE [chan EXCEPT ![Peer(r)] = Append(@, m)]
-    /\ sent' = IF dead[r] \/ mute[r] THEN sent ELSE [sent EXCEPT ![Peer(r)] = @ \cup {m}]
-NoWrite == UNCHANGED <<wrote, chan, sent>>
+NoWrite == UNCHANGED <<wrote, chan>>
 
 (* typ := "fail"; if trace { typ = "FAIL" } *)
 Kind(e) == IF Mutant = "allFAIL" \/ e.trace THEN "FAIL" ELSE "fail"
 
 Fs == <<made, tracked, preex, deleted>>
 Term == <<final, shown, resets, bgs>>
-Traffic == <<budget, noise>>
+Traffic == <<noise>>
 Envv == <<dead, mute, ninj, upload>>
 
 -----------------------------------------------------------------------------
@@ -119,7 +118,7 @@ Create(f) ==
     /\ pc[Rcv] = "run" /\ f \in Files \ made[Rcv] /\ f \notin deleted[Rcv]
     /\ made' = [made EXCEPT ![Rcv] = @ \cup {f}]
     /\ tracked' = [tracked EXCEPT ![Rcv] = IF AsCoded \/ f \notin preex THEN @ \cup {f} ELSE @]
-    /\ UNCHANGED <<pc, err, stopf, chan, wrote, sent, preex, deleted, turns>> /\ UNCHANGED <<Term, Traffic, Envv>>
+    /\ UNCHANGED <<pc, err, stopf, chan, wrote, preex, deleted, turns>> /\ UNCHANGED <<Term, Traffic, Envv>>
 
 (* deleteCreatedFiles: every recorded path that still exists is removed and reported *)
 Removed(r) == tracked[r] \cap made[r]
@@ -133,22 +132,28 @@ ToClean(r, e) ==
 (* a local failure: i/o error (plain Go error: trace by default, no stack in the text),       *)
 (* simpleTrzszError (no trace), protocol violation / panic (newTrzszError(.., true): stack),  *)
 (* receive time-out (errReceiveDataTimeout, only when nothing arrives)                        *)
+LocalErr(cls, x) == [cls |-> cls, x |-> x, tb |-> IF cls \in {"proto", "panic"} THEN 1 ELSE 0,
+                     trace |-> cls \in {"io", "proto", "panic"}, remote |-> "no", fl |-> {}, src |-> NoMsg]
 Local(r, cls, x) ==
     /\ pc[r] = "run" /\ cls \in Classes \cap {"io", "simple", "proto", "panic", "timeout"} /\ x \in Texts
     /\ (cls = "timeout" => chan[r] = <<>> /\ noise[r] = 0)
     /\ IF cls = "proto"
        THEN \E i \in 1..Len(chan[r]) : chan[r][i].t = "junk" /\ chan' = [chan EXCEPT ![r] = SubSeq(@, i + 1, Len(@))]
        ELSE chan' = chan
-    /\ ToClean(r, [cls |-> cls, x |-> x, tb |-> IF cls \in {"proto", "panic"} THEN 1 ELSE 0,
-                   trace |-> cls \in {"io", "proto", "panic"}, remote |-> "no", fl |-> {}])
-    /\ UNCHANGED <<stopf, wrote, sent>> /\ UNCHANGED <<Fs, Term, Traffic, Envv>>
+    /\ ToClean(r, LocalErr(cls, x))
+    /\ UNCHANGED <<stopf, wrote>> /\ UNCHANGED <<Fs, Term, Traffic, Envv>>
+(* the same without the model's enabling conditions (trace validation: what made the real     *)
+(* role fail locally is not always visible from outside)                                      *)
+LocalAny(r, cls, x) ==
+    /\ pc[r] = "run" /\ chan' = chan /\ ToClean(r, LocalErr(cls, x))
+    /\ UNCHANGED <<stopf, wrote>> /\ UNCHANGED <<Fs, Term, Traffic, Envv>>
 
 (* checkStop: errStopped / errStoppedAndDeleted *)
 NoticeStop(r) ==
     /\ pc[r] = "run" /\ stopf[r] # "no"
     /\ ToClean(r, [cls |-> "stop", x |-> IF stopf[r] = "del" THEN STOPDEL ELSE STOPPED, tb |-> 0,
-                   trace |-> FALSE, remote |-> "no", fl |-> {}])
-    /\ UNCHANGED <<stopf, chan, wrote, sent>> /\ UNCHANGED <<Fs, Term, Traffic, Envv>>
+                   trace |-> FALSE, remote |-> "no", fl |-> {}, src |-> NoMsg])
+    /\ UNCHANGED <<stopf, chan, wrote>> /\ UNCHANGED <<Fs, Term, Traffic, Envv>>
 
 (* recvCheck: a line of another type than expected -> newTrzszError(buf, typ, true).  For     *)
 (* fail / FAIL / EXIT the text is the decoded payload; only FAIL keeps the trace flag, so     *)
@@ -159,9 +164,9 @@ Remote(r, i) ==
        /\ m.t \in {"fail", "FAIL", "EXIT"}
        /\ ToClean(r, [cls |-> "remote", x |-> m.x,
                       tb |-> m.tb + (IF m.t = "FAIL" \/ Mutant = "trace" THEN 1 ELSE 0),
-                      trace |-> m.t = "FAIL", remote |-> m.t, fl |-> m.fl])
+                      trace |-> m.t = "FAIL", remote |-> m.t, fl |-> m.fl, src |-> m])
     /\ chan' = [chan EXCEPT ![r] = SubSeq(@, i + 1, Len(@))]
-    /\ UNCHANGED <<stopf, wrote, sent>> /\ UNCHANGED <<Fs, Term, Traffic, Envv>>
+    /\ UNCHANGED <<stopf, wrote>> /\ UNCHANGED <<Fs, Term, Traffic, Envv>>
 
 -----------------------------------------------------------------------------
 (* cleanInput: stopped := true, drain, then sleep until nothing has arrived for the clean     *)
@@ -173,12 +178,12 @@ CleanDrain(r) ==
     /\ IF chan[r] # <<>> THEN chan' = [chan EXCEPT ![r] = Tail(@)] /\ noise' = noise
        ELSE chan' = chan /\ noise' = [noise EXCEPT ![r] = @ - 1]
     /\ turns' = [turns EXCEPT ![r] = @ + 1]
-    /\ UNCHANGED <<pc, err, stopf, wrote, sent, budget>> /\ UNCHANGED <<Fs, Term, Envv>>
+    /\ UNCHANGED <<pc, err, stopf, wrote>> /\ UNCHANGED <<Fs, Term, Envv>>
 
 CleanDone(r) ==
     /\ Cleaning(r) /\ chan[r] = <<>> /\ noise[r] = 0
-    /\ pc' = [pc EXCEPT ![r] = IF pc[r] = "clean" THEN "tell" ELSE "reset"]
-    /\ UNCHANGED <<err, stopf, chan, wrote, sent, turns>> /\ UNCHANGED <<Fs, Term, Traffic, Envv>>
+    /\ pc' = [pc EXCEPT ![r] = IF pc[r] = "clean" THEN "tell" ELSE "reset"] /\ turns' = [turns EXCEPT ![r] = 0]
+    /\ UNCHANGED <<err, stopf, chan, wrote>> /\ UNCHANGED <<Fs, Term, Traffic, Envv>>
 
 -----------------------------------------------------------------------------
 (* clientError after cleanInput *)
@@ -218,13 +223,14 @@ TellV ==
     /\ pc' = [pc EXCEPT !["V"] = "xclean"] /\ turns' = [turns EXCEPT !["V"] = 0]
     /\ UNCHANGED <<err, stopf, shown, resets, bgs>> /\ UNCHANGED <<Traffic, Envv>>
 
-(* the normal end: the server reads the EXIT line and hands its text to serverExit *)
-VExitOk(i) ==
+(* the normal end: the server reads the EXIT line; tsz hands its text to serverExit, trz its   *)
+(* own list of what it saved (x)                                                              *)
+VExitOk(i, x) ==
     /\ pc["V"] = "run" /\ i \in 1..Len(chan["V"]) /\ chan["V"][i].t = "EXIT"
-    /\ final' = Txt(chan["V"][i].x, chan["V"][i].tb, chan["V"][i].fl)
+    /\ final' = IF upload THEN Txt(x, 0, {}) ELSE Txt(chan["V"][i].x, chan["V"][i].tb, chan["V"][i].fl)
     /\ chan' = [chan EXCEPT !["V"] = SubSeq(@, i + 1, Len(@))]
     /\ pc' = [pc EXCEPT !["V"] = "xclean"] /\ turns' = [turns EXCEPT !["V"] = 0]
-    /\ UNCHANGED <<err, stopf, wrote, sent, shown, resets, bgs>> /\ UNCHANGED <<Fs, Traffic, Envv>>
+    /\ UNCHANGED <<err, stopf, wrote, shown, resets, bgs>> /\ UNCHANGED <<Fs, Traffic, Envv>>
 
 (* clientExit *)
 CExit(x) ==
@@ -240,25 +246,19 @@ ResetTerm ==
     /\ resets' = IF resets = 0 \/ Mutant = "nocas" THEN resets + 1 ELSE resets
     /\ shown' = [shown EXCEPT !["V"] = Append(@, final)]
     /\ Finish("V")
-    /\ UNCHANGED <<err, stopf, chan, wrote, sent, turns, final, bgs>> /\ UNCHANGED <<Fs, Traffic, Envv>>
+    /\ UNCHANGED <<err, stopf, chan, wrote, turns, final, bgs>> /\ UNCHANGED <<Fs, Traffic, Envv>>
 
 (* resetTerm("Switch to transfer in background.", true) from switchToBackground's goroutine *)
 BgReset ==
     /\ WithBg /\ bgs = "no" /\ bgs' = "fired"
     /\ resets' = IF resets = 0 \/ Mutant = "nocas" THEN resets + 1 ELSE resets
-    /\ UNCHANGED <<pc, err, stopf, chan, wrote, sent, turns, final, shown>> /\ UNCHANGED <<Fs, Traffic, Envv>>
+    /\ UNCHANGED <<pc, err, stopf, chan, wrote, turns, final, shown>> /\ UNCHANGED <<Fs, Traffic, Envv>>
 
 (* a finished role's input goes nowhere *)
 DropDone(r) ==
-    /\ pc[r] = "done" /\ (chan[r] # <<>> \/ noise[r] > 0)
-    /\ IF chan[r] # <<>> THEN chan' = [chan EXCEPT ![r] = Tail(@)] /\ noise' = noise
-       ELSE chan' = chan /\ noise' = [noise EXCEPT ![r] = @ - 1]
-    /\ UNCHANGED <<pc, err, stopf, wrote, sent, turns, budget>> /\ UNCHANGED <<Fs, Term, Envv>>
-
-(* a running role consumes ordinary traffic *)
-Consume(r) ==
-    /\ pc[r] = "run" /\ noise[r] > 0 /\ noise' = [noise EXCEPT ![r] = @ - 1]
-    /\ UNCHANGED <<pc, err, stopf, chan, wrote, sent, turns, budget>> /\ UNCHANGED <<Fs, Term, Envv>>
+    /\ pc[r] = "done" /\ chan[r] # <<>>
+    /\ chan' = [chan EXCEPT ![r] = Tail(@)]
+    /\ UNCHANGED <<pc, err, stopf, wrote, turns>> /\ UNCHANGED <<Fs, Term, Traffic, Envv>>
 
 -----------------------------------------------------------------------------
 (* Environment *)
@@ -267,33 +267,33 @@ UserStop(r, k) ==
     /\ "stop" \in Classes /\ k \in {"keep", "del"} /\ (k = "del" => r = "C")
     /\ stopf[r] = "no" /\ (pc[r] = "run" \/ (pc[r] = "clean" /\ turns[r] = 0))
     /\ stopf' = [stopf EXCEPT ![r] = k]
-    /\ UNCHANGED <<pc, err, chan, wrote, sent, turns>> /\ UNCHANGED <<Fs, Term, Traffic, Envv>>
+    /\ UNCHANGED <<pc, err, chan, wrote, turns>> /\ UNCHANGED <<Fs, Term, Traffic, Envv>>
 
 (* the peer of r keeps sending ordinary messages until it hears from r or runs out of window *)
 PeerNoise(r) ==
-    /\ pc[Peer(r)] = "run" /\ budget[r] > 0 /\ noise[r] < MaxNoise
-    /\ noise' = [noise EXCEPT ![r] = @ + 1]
-    /\ budget' = IF Mutant = "flood" THEN budget ELSE [budget EXCEPT ![r] = @ - 1]
-    /\ UNCHANGED <<pc, err, stopf, chan, wrote, sent, turns>> /\ UNCHANGED <<Fs, Term, Envv>>
+    /\ Cleaning(r) /\ pc[Peer(r)] = "run" /\ noise[r] = 0
+    /\ (turns[r] < MaxNoise \/ (Mutant = "flood" /\ turns[r] <= DrainBound))
+    /\ noise' = [noise EXCEPT ![r] = 1]
+    /\ UNCHANGED <<pc, err, stopf, chan, wrote, turns>> /\ UNCHANGED <<Fs, Term, Envv>>
 
-InjMsgs == {Msg(t, x, tb, {}) : t \in {"fail", "FAIL", "EXIT"}, x \in {STOPDEL} \cup Texts, tb \in {0, 1}}
-               \cup {Msg("junk", 0, 0, {})}
+InjMsgs == {Msg("fail", x, 0, {}) : x \in {STOPDEL} \cup Texts} \cup {Msg("FAIL", x, 1, {}) : x \in Texts}
+               \cup {Msg("EXIT", x, 0, {}) : x \in Texts} \cup {Msg("junk", 0, 0, {})}
 Inject(to, m) ==
-    /\ ninj < MaxInject /\ m \in InjMsgs /\ ninj' = ninj + 1
-    /\ chan' = [chan EXCEPT ![to] = Append(@, m)] /\ sent' = [sent EXCEPT ![to] = @ \cup {m}]
+    /\ ninj < MaxInject /\ m \in InjMsgs /\ ninj' = ninj + 1 /\ pc[to] # "done"
+    /\ chan' = [chan EXCEPT ![to] = Append(@, m)]
     /\ UNCHANGED <<pc, err, stopf, wrote, turns, dead, mute, upload>> /\ UNCHANGED <<Fs, Term, Traffic>>
 
 Break(r, how) ==
-    /\ WithDead /\ ~dead[r] /\ ~mute[r]
+    /\ how \in WithDead /\ ~dead[r] /\ ~mute[r] /\ pc[r] \in {"run", "clean"}
     /\ IF how = "dead" THEN dead' = [dead EXCEPT ![r] = TRUE] /\ mute' = mute
        ELSE mute' = [mute EXCEPT ![r] = TRUE] /\ dead' = dead
-    /\ UNCHANGED <<pc, err, stopf, chan, wrote, sent, turns, ninj, upload>> /\ UNCHANGED <<Fs, Term, Traffic>>
+    /\ UNCHANGED <<pc, err, stopf, chan, wrote, turns, ninj, upload>> /\ UNCHANGED <<Fs, Term, Traffic>>
 
 RoleStep ==
     \/ \E r \in Roles : \/ \E c \in Classes, x \in Texts : Local(r, c, x)
                         \/ NoticeStop(r) \/ (\E i \in 1..Len(chan[r]) : Remote(r, i))
-                        \/ CleanDrain(r) \/ CleanDone(r) \/ DropDone(r) \/ Consume(r)
-    \/ TellC \/ TellV \/ (\E i \in 1..Len(chan["V"]) : VExitOk(i)) \/ (\E x \in Texts : CExit(x)) \/ ResetTerm \/ BgReset
+                        \/ CleanDrain(r) \/ CleanDone(r) \/ DropDone(r)
+    \/ TellC \/ TellV \/ (\E i \in 1..Len(chan["V"]), x \in Texts : VExitOk(i, x)) \/ (\E x \in Texts : CExit(x)) \/ ResetTerm \/ BgReset
 Env ==
     \/ \E f \in Files : Create(f)
     \/ \E r \in Roles : \/ \E k \in {"keep", "del"} : UserStop(r, k)
@@ -331,15 +331,15 @@ KindMatchesTraceback ==
           LET m == FailLines(r)[i] IN
           IF m.fl # {} THEN m.t = "fail" ELSE (m.t = "FAIL") <=> err[r].trace
     /\ \A r \in Roles : (HasDisp(r) /\ err[r].remote # "no") =>
-          \E m \in sent[r] : /\ m.t = err[r].remote /\ m.x = Disp(r).x
-                             /\ Disp(r).tb = m.tb + (IF m.t = "FAIL" THEN 1 ELSE 0)
+          LET m == err[r].src IN /\ m.t = err[r].remote /\ m.x = Disp(r).x
+                                 /\ Disp(r).tb = m.tb + (IF m.t = "FAIL" THEN 1 ELSE 0)
 
 (* what the receiving side shows is the text that was sent to it; a deleted-files list names  *)
 (* exactly what deleteCreatedFiles removed on the side that removed it                        *)
 ShownIsSent ==
     /\ \A r \in Roles : (HasDisp(r) /\ err[r].remote # "no") =>
-          \E m \in sent[r] : /\ m.t = err[r].remote /\ m.x = Disp(r).x
-                             /\ Disp(r).fl = (IF r = "V" /\ IsStopAndDelete(err[r]) /\ deleted["V"] # {} THEN deleted["V"] ELSE m.fl)
+          LET m == err[r].src IN /\ m.t = err[r].remote /\ m.x = Disp(r).x
+                                 /\ Disp(r).fl = (IF r = "V" /\ IsStopAndDelete(err[r]) /\ deleted["V"] # {} THEN deleted["V"] ELSE m.fl)
     /\ \A i \in 1..Len(FailLines("C")) : FailLines("C")[i].fl = deleted["C"]
     /\ (PastTell("V") /\ IsStopAndDelete(err["V"])) => final.fl = deleted["V"]
     /\ \A r \in Roles : Failed(r) /\ HasDisp(r) /\ err[r].remote = "no" /\ r = "V" => Disp(r) = Txt(err[r].x, err[r].tb, {})
@@ -356,14 +356,13 @@ TermResetOnce ==
 
 (* cleanInput costs one turn per arrival, and arrivals are bounded by what the peer sends     *)
 (* without hearing from us (its window), the lines it writes and the forged lines             *)
-DrainBound == MaxNoise + MaxInject + 2
 DrainBounded == \A r \in Roles : turns[r] <= DrainBound
 (* ... so every error path ends (with an endlessly sending peer it does not: Mutant "flood")  *)
 Termination == <>[](\A r \in Roles : pc[r] = "done")
 
 TypeOK ==
     /\ \A r \in Roles : pc[r] \in {"run", "clean", "tell", "xclean", "reset", "done"}
-    /\ \A r \in Roles : noise[r] \in 0..MaxNoise /\ budget[r] \in 0..MaxNoise /\ stopf[r] \in {"no", "keep", "del"}
+    /\ \A r \in Roles : noise[r] \in 0..1 /\ stopf[r] \in {"no", "keep", "del"}
     /\ resets \in 0..3 /\ ninj \in 0..MaxInject
     /\ \A r \in Roles : made[r] \subseteq Files /\ tracked[r] \subseteq Files /\ deleted[r] \subseteq Files
 =============================================================================
